@@ -54,12 +54,33 @@ def console_steps(rng, gen: int, inst: dict, n: int, t0: float, spacing: float =
             else:
                 tl.append({"at": t, "op": "console.set", "entity": ["ac", rng.choice(acs)], "fields": {"timer": rng.random() < 0.5}, "only": True, "unexposed": True})
         elif k == "multi" and zones:
-            # several zones change, one frame
+            # several zones change, one frame; sometimes in any record order and with records of zones / ACs the
+            # installation does not contain in front of, between or behind them
             ids = sorted(rng.sample(zones, rng.randint(1, len(zones))))
             for z in ids:
                 full = G.zone_state(rng, gen)
                 tl.append({"at": t, "op": "console.set", "entity": ["zone", z], "fields": {"power": full["power"], "percent": full["percent"]}, "publish": False})
-            tl.append({"at": t, "op": "console.publish", "what": "zone", "ids": ids})
+            step = {"at": t, "op": "console.publish", "what": "zone", "ids": ids}
+            other = [z for z in range(16) if z not in zones]
+            if other and rng.random() < 0.5:
+                extra = rng.sample(other, rng.randint(1, min(2, len(other))))
+                step["foreign"] = {"zone": {str(z): G.zone_state(rng, gen) for z in extra}}
+                ids = ids + extra
+                rng.shuffle(ids)
+                step["ids"] = ids
+            tl.append(step)
+            if rng.random() < 0.3 and spacing >= 0.25:
+                # one frame per instant (C12 attributes notifications to frames by instant)
+                t2 = t + spacing / 4
+                other_ac = [a for a in range(4 if gen == 4 else 8) if a not in acs]
+                if other_ac:
+                    a_ids = list(acs)
+                    extra = rng.sample(other_ac, 1)
+                    for a in a_ids:
+                        tl.append({"at": t2, "op": "console.set", "entity": ["ac", a], "fields": {"setpoint": G.ac_state(rng, gen)["setpoint"]}, "publish": False})
+                    a_ids = a_ids + extra
+                    rng.shuffle(a_ids)
+                    tl.append({"at": t2, "op": "console.publish", "what": "ac", "ids": a_ids, "foreign": {"ac": {str(a): G.ac_state(rng, gen) for a in extra}}})
         t += spacing
     return tl
 
